@@ -11,6 +11,16 @@ CHECKS = {
         text="Exploration: randomly generated well-typed expressions (all 12 numeric kinds, strings, collections, structs, nil-safe chains, nested closures, logging calls) over generated environment values are compiled (typed / untyped / Eval, optimiser on and off) and compared with an independently written big-step reference evaluator on value, failure and environment-call log. Finds wrong code generation for shapes and values the example table lacks; does not prove absence.",
         note="Trusted: the reference evaluator (harness/core/refeval.go, written from docs/Language-Definition.md and Go semantics), the printer, rapid. Known-finding regions are excluded by construction and counted.",
         ref="4/C01"),
+    "C12": dict(
+        technique="property-based testing (rapid) with round-trip oracles: write value with drawn spelling -> lex/parse -> same value; writer's own line/column count for positions; native go-fuzz target in the thorough tier",
+        text="Exploration: generated strings, integers, floats and token layouts are written in every supported spelling and must lex/parse back to exactly the same value / position. Round-trip and position oracles need no model of the lexer. Bounded by case counts; absence is not established.",
+        note="Trusted: the harness writer (spellings, whitespace) and its position counter; rapid; strconv for shortest float formatting.",
+        ref="4/C12"),
+    "C14": dict(
+        technique="bounded exhaustive enumeration (12x12 kinds x 13 operators x boundary grid x 5 modes) + rapid random values against independent reflect.Convert/wide-arithmetic oracle and checker-predicted kind",
+        text="Exploration, exhaustive over the stated finite grid: every ordered pair of numeric kinds x every operator x every pair of boundary values, in map-env, struct-env, untyped and literal-operand modes, then random full-range values; result must be Exact (kind and value, NaN-aware) and of the kind checker.Check predicts; integer division by zero must fail.",
+        note="Trusted: reference arithmetic in harness/core/refeval.go (RefArith, RefNegate) built on reflect.Value.Convert and Go's own operators; grid membership is a harness choice.",
+        ref="4/C14"),
 }
 
 NOT_YET = {}
